@@ -208,7 +208,34 @@ fn operand(shape: u8, out: &mut Vec<TK>) {
         11 => out.extend([TK::Ident, TK::Caret]),                       // a^
         12 => out.extend([TK::Ident, TK::Dot, TK::LParen, TK::Ident, TK::RParen]), // T.(a)
         13 => out.extend([TK::Hyphen, TK::Ident, TK::Dot, TK::Ident]),  // -a.b
+        16..=47 => {
+            // one of the four prefix operators in front of an operand that carries one postfix operator
+            out.push([TK::Hyphen, TK::Bang, TK::Tilde, TK::Plus][((shape - 16) / 8) as usize]);
+            match (shape - 16) % 8 {
+                0 => out.extend([TK::Ident, TK::LParen, TK::Ident, TK::RParen]),            // a(b)
+                1 => out.extend([TK::Ident, TK::LBrack, TK::Int, TK::RBrack]),              // a[0]
+                2 => out.extend([TK::Ident, TK::Dot, TK::Ident]),                           // a.b
+                3 => out.extend([TK::Ident, TK::Dot, TK::Try]),                             // a.try
+                4 => out.extend([TK::Ident, TK::Caret]),                                    // a^
+                5 => out.extend([TK::Ident, TK::Dot, TK::LParen, TK::Ident, TK::RParen]),   // T.(a)
+                6 => out.extend([TK::Ident, TK::Dot, TK::LBrace, TK::RBrace]),              // T.{}
+                _ => out.extend([TK::Ident, TK::Dot, TK::LBrack, TK::Ident, TK::RBrack]),   // T.[a]
+            }
+        }
         _ => out.extend([TK::Int]),
+    }
+}
+
+/// 0: the operand has no prefix operator among - + ! ~; 1: it has one and the UnaryExpr must cover the whole operand
+/// (postfix operators bind tighter than these prefix operators: "`~u64.(42)` ... you ARE trying to do `~(u64.(42))`",
+/// grammar/expr.rs); 2: `!` in front of `T.(..)`, `T.{..}`, `T.[..]`, where the same comment announces that `(!T).(..)`
+/// is the intended reading once inferred error unions exist: both readings are accepted
+fn operand_unary(shape: u8) -> u8 {
+    match shape {
+        1..=4 | 13 => 1,
+        // `-a^`: the parser reads `(-a)^` for all four prefix operators; nothing documents either reading, both are accepted
+        16..=47 => if ((shape - 16) / 8 == 1 && (shape - 16) % 8 >= 5) || (shape - 16) % 8 == 4 { 2 } else { 1 },
+        _ => 0,
     }
 }
 
@@ -272,6 +299,24 @@ pub unsafe extern "C" fn harness_prec(ops: *const u8, nops: usize, shapes: *cons
     for (g, e) in got.iter().zip(expected.iter()) {
         if g != e { return 18; }
     }
+    // prefix against postfix: every prefixed operand is one UnaryExpr over the whole operand
+    let mut unary: Vec<(u32, u32)> = Vec::new();
+    for nd in tree.root().descendant_nodes(tree) {
+        if nd.kind(tree) == NodeKind::UnaryExpr {
+            let r = nd.range(tree);
+            unary.push((r.start().into(), r.end().into()));
+        }
+    }
+    let mut want = 0;
+    for i in 0..=nops {
+        let mode = operand_unary(shapes[i]);
+        if mode == 0 { continue; }
+        want += 1;
+        let whole = operand_span[i];
+        let tight = (whole.0, whole.0 + 4);
+        if !(unary.contains(&whole) || (mode == 2 && unary.contains(&tight))) { return 19; }
+    }
+    if unary.len() != want { return 20; }
     0
 }
 
